@@ -52,23 +52,32 @@ def length : Addr → Nat
   | .v4 _ _ => 1 + 4 + 2
   | .v6 _ _ => 1 + 16 + 2
 
-/-- `address::decode`: returns the address and the unread rest -/
-def decode (b : Bytes) : Res (Addr × Bytes) := do
+/-- `address::decode`: returns the address and the unread rest.  The length guard in front of the
+cursor reads is the one the Rust has (a truncated address is an error, never a panic). -/
+def decode (b : Bytes) : Res (Addr × Bytes) :=
+  if b.length = 0 then .err else do
   let (t, b) ← Buf.getU8 b
-  if t = 1 then
+  if t ≠ 1 ∧ t ≠ 3 ∧ t ≠ 4 then .err else
+  let required : Nat :=
+    if t = 1 then 4 + 2
+    else if t = 4 then 16 + 2
+    else match b with
+      | [] => 1
+      | l :: _ => 1 + l.toNat + 2
+  if b.length < required then .err else
+  if t = 1 then do
     let (ip, b) ← Buf.take 4 b
     let (p, b) ← Buf.getU16 b
     pure (.v4 ip p, b)
-  else if t = 3 then
+  else if t = 3 then do
     let (l, b) ← Buf.getU8 b
     let (h, b) ← Buf.take l.toNat b
     let (p, b) ← Buf.getU16 b
     pure (.domain h p, b)
-  else if t = 4 then
+  else do
     let (ip, b) ← Buf.take 16 b
     let (p, b) ← Buf.getU16 b
     pure (.v6 ip p, b)
-  else .err
 
 /-- `address::try_decode_at(src, at)`: indexing `src[at]`, `src[at+1]` panics out of range -/
 def tryDecodeAt (b : Bytes) (at_ : Nat) : Res Nat :=
